@@ -65,7 +65,8 @@ def generate(ctx):
     for i in range(ctx.scale(100, 1000)):
         s = gen.make_signal(ctx.sub_rng(i), family=fams[i % len(fams)])
         cases.append(dict(kind='signal', sig=proto.arr2hex(s['sig']), fs=s['fs'], f_range=list(s['f_range']),
-                          center=str(rng.choice(['peak', 'trough'])), family=s['family'], lab=int(rng.choice([0, 0, 1, 2]))))
+                          center=str(rng.choice(['peak', 'trough'])), family=s['family'], lab=int(rng.choice([0, 0, 1, 2])),
+                          dt=(str(rng.choice(['uint8', 'uint16', 'int16', 'int8'])) if rng.random() < 0.2 else None), reuse=bool(rng.random() < 0.25)))
     return cases
 
 def _relabel(df, lab):
@@ -89,10 +90,16 @@ def evaluate(ctx, cases):
             pc, sig, x = c['pc'], None, None
         else:
             x = proto.hex2arr(c['sig'])
+            if c.get('dt'):      # an unsigned / narrow integer recording (ADC counts): decreasing steps must not wrap
+                lo, hi = {'uint8': (0, 255), 'uint16': (0, 65535), 'int16': (-32768, 32767), 'int8': (-128, 127)}[c['dt']]
+                m = float(np.max(np.abs(x))) or 1.0
+                x = np.round((x / m + 1) / 2 * (hi - lo) + lo).astype(c['dt'])
+            cf = lambda a: implutil.quiet(compute_features, a, c['fs'], tuple(c['f_range']), center_extrema=c['center'], threshold_kwargs={})
             try:
-                df = implutil.quiet(compute_features, x, c['fs'], tuple(c['f_range']), center_extrema=c['center'], threshold_kwargs={})
+                df = implutil.reuse_buffer(cf, x) if c.get('reuse') else cf(x)
             except Exception as e:
                 plan.append(dict(skip=type(e).__name__)); continue
+            xi = x; x = x.astype(float)
             pc = c['center'] == 'peak'
             if c.get('lab', 0):
                 df = _relabel(df.iloc[2:] if c['lab'] == 1 else df, c['lab'])
@@ -110,7 +117,8 @@ def evaluate(ctx, cases):
             side = 'trough' if pc else 'peak'; cen = 'peak' if pc else 'trough'
             rows = '[' + ','.join('[%d,%d,%d]' % (a, b, e) for a, b, e in zip(df['sample_last_' + side].values, df['sample_' + cen].values,
                                                                                df['sample_next_' + side].values)) + ']'
-            reqs.append('mono.model %s %s %s' % (T, proto.enc_list(x), rows)); items.append(('mono', _wrap(lambda: compute_monotonicity(df, x)), 'corr'))
+            mono = (lambda: implutil.reuse_buffer(lambda a: compute_monotonicity(df, a), xi)) if c.get('reuse') else (lambda: compute_monotonicity(df, xi))
+            reqs.append('mono.model %s %s %s' % (T, proto.enc_list(x), rows)); items.append(('mono', _wrap(mono), 'corr'))
             reqs.append('mono.spec %s %s %s' % (T, proto.enc_list(x), rows)); items.append(('mono_spec', ['ok', [float(v) for v in df['monotonicity'].values]], 'judge'))
             # the columns of the returned table are these functions' values
             items.append(('cols', None, 'cols'))
